@@ -397,16 +397,23 @@ def check_affine_algebra(ctx, db):
     inner = next((l for l in f.walk() if l.k == 'ForStmt' and any(v.k == 'VarDecl' and v.n == 'q' for v in l.walk()) and not any(x.k == 'ForStmt' and x is not l for x in l.child('body').walk())), None)
     if inner is None:
         raise AnalysisBroken('Reference::repeat_and_transform: per-point loop not found')
-    pre = [s_ for s_ in f.body.c if s_ is not None and s_.k == 'DeclStmt' and s_.id < inner.id and all(v is None or (re.search(r'double', v.t or '') and '*' not in (v.t or '')) for v in s_.c)]
+    top_ = inner
+    while top_.parent is not None and top_.parent is not f.body:
+        top_ = top_.parent
+    before = f.body.c[:f.body.c.index(top_)] if top_ in f.body.c else []          # (by position: code put back from a helper has no source order ids)
+    pre = [s_ for s_ in before if s_ is not None and s_.k == 'DeclStmt' and all(v is None or (re.search(r'double', v.t or '') and '*' not in (v.t or '')) for v in s_.c)]
     for g in (1, -1):
         alg = S.Algebra(db, None)
         env = {'x_reflection': S.P(1 if g == -1 else 0)}
         px, py = S.atom('px'), S.atom('py')
         try:
             alg.block(pre, env, None)
-            env['*p'] = alg.vec(px, py)
-            env['*off'] = alg.vec(S.atom('offx'), S.atom('offy'))
-            out = run_point_block(alg, [s_ for s_ in inner.child('body').c if s_ is not None], env, 'p')
+            # the cursor over the points: the pointer the loop body stores through (whatever it is called)
+            pv = next((_strip_casts(_strip_casts(x.child('lhs')).child('base')).n for x in inner.child('body').walk() if is_assign(x) and _strip_casts(x.child('lhs')).k == 'MemberExpr' and _strip_casts(x.child('lhs')).arrow
+                       and _strip_casts(_strip_casts(x.child('lhs')).child('base')).k == 'DeclRefExpr'), 'p')
+            env['*' + pv] = alg.vec(px, py)
+            env['*off'] = env['*offsets'] = alg.vec(S.atom('offx'), S.atom('offy'))     # the offset of this copy: through a cursor or by index
+            out = run_point_block(alg, [s_ for s_ in inner.child('body').c if s_ is not None], env, pv)
         except S.Unsupported as e:
             raise AnalysisBroken('Reference::repeat_and_transform point map is outside the algebra: %s' % e)
         C_, Sn = alg.fatom('cos', S.atom('rotation')), alg.fatom('sin', S.atom('rotation'))
@@ -537,8 +544,32 @@ def val_with_cursor(alg, e, env, pvar):
     from .. import symdiff as S
     orig_value = alg.value
 
+    def sub_key(x0):
+        """`arr[i]`, `arr.items[i]`, `ptr[i]` -> '*arr' / '*ptr' (the generic element of that list)"""
+        if x0 is None:
+            return None
+        b_ = None
+        if x0.k == 'ArraySubscriptExpr':
+            b_ = _strip_casts(x0.child('base') or x0.c[0])
+        elif x0.k == 'CXXOperatorCallExpr' and x0.op == '[]' and x0.args:
+            b_ = _strip_casts(x0.args[0])
+        if b_ is None:
+            return None
+        if b_.k == 'MemberExpr' and b_.n == 'items' and b_.child('base') is not None:
+            b_ = _strip_casts(b_.child('base'))
+        if b_.k in ('DeclRefExpr', 'MemberExpr') and b_.n:
+            return '*' + b_.n
+        return None
+
     def value(x, en):
         x0 = _strip_casts(x)
+        sk = sub_key(x0)
+        if sk is not None and sk in en:
+            return en[sk]
+        if x0 is not None and x0.k == 'MemberExpr' and x0.n in ('x', 'y') and not x0.arrow:
+            sk = sub_key(_strip_casts(x0.child('base')) if x0.child('base') is not None else None)
+            if sk is not None and sk in en:
+                return en[sk][1] if x0.n == 'x' else en[sk][2]
         if x0 is not None and x0.k == 'UnaryOperator' and x0.op == '*':
             sub = _strip_casts(x0.child('sub'))
             while sub.k == 'UnaryOperator' and sub.op in ('post++', '++'):
